@@ -22,8 +22,8 @@ import (
 )
 
 var trackChar = map[string]string{"a": "a", "sp": " ", "hash": "#", "bang": "!", "quote": "\"", "star": "*", "qmark": "?",
-	"lbr": "[", "rbr": "]", "bslash": "\\", "tab": "\t", "nonascii": "é", "dot": "."}
-var trackCharOrder = []string{"a", "sp", "hash", "bang", "quote", "star", "qmark", "lbr", "rbr", "bslash", "tab", "nonascii", "dot"}
+	"lbr": "[", "rbr": "]", "bslash": "\\", "tab": "\t", "nonascii": "é", "dot": ".", "uspace": "\u3000"}
+var trackCharOrder = []string{"a", "sp", "hash", "bang", "quote", "star", "qmark", "lbr", "rbr", "bslash", "tab", "nonascii", "dot", "uspace"}
 
 func renderName(cs []string) string {
 	var sb strings.Builder
@@ -201,7 +201,7 @@ func init() {
 	registry["C19"] = func(c *core.Ctx, replay string) {
 		c.Level = "exploration"
 		lfs := c.BuildLFS()
-		cfg, budget, maxLen := "Track_q.cfg", 1300, 2
+		cfg, budget, maxLen := "Track_q.cfg", 700, 2
 		if !c.Quick() {
 			cfg, budget, maxLen = "Track_t.cfg", 12000, 3
 		}
@@ -234,7 +234,14 @@ func init() {
 			last := b.Steps[len(b.Steps)-1]
 			cs := append([]string{}, last.Name...)
 			sort.Strings(cs)
-			k := b.Steps[0].A + "|" + last.A + "|" + b.Pre + "|" + strings.Join(cs, ",")
+			// "the same again" and "track X, untrack X" are the two-step classes the property names; for them
+			// the pre-existing file is folded into the class (its member is chosen by hash)
+			pre := b.Pre
+			same := fmt.Sprint(b.Steps[0].Name) == fmt.Sprint(last.Name)
+			if strings.HasSuffix(last.A, "-again") || (same && strings.HasPrefix(last.A, "untrack")) {
+				pre = "*"
+			}
+			k := b.Steps[0].A + "|" + last.A + "|" + pre + "|" + strings.Join(cs, ",")
 			l := append(byClass[k], &b)
 			if len(l) > 6 {
 				sort.Slice(l, func(i, j int) bool { return l[i].hash < l[j].hash })
@@ -253,13 +260,22 @@ func init() {
 		sort.Slice(keys, func(i, j int) bool {
 			return fnvStr(keys[i], c.Seed) < fnvStr(keys[j], c.Seed)
 		})
-		for _, k := range keys {
-			if len(bs) >= budget {
-				break
+		// the budget is for the two-step behaviours (every one-step behaviour is replayed anyway); classes
+		// that end in the same command once more (idempotence, per character class) go first
+		budget += len(single)
+		for pass := 0; pass < 2; pass++ {
+			for _, k := range keys {
+				if len(bs) >= budget {
+					break
+				}
+				named := strings.SplitN(k, "|", 4)[2] == "*"
+				if named != (pass == 0) {
+					continue
+				}
+				l := byClass[k]
+				sort.Slice(l, func(i, j int) bool { return l[i].hash < l[j].hash })
+				bs = append(bs, l[0])
 			}
-			l := byClass[k]
-			sort.Slice(l, func(i, j int) bool { return l[i].hash < l[j].hash })
-			bs = append(bs, l[0])
 		}
 		if len(bs) < 100 {
 			c.Infra("only %d behaviours", len(bs))
@@ -290,7 +306,7 @@ func init() {
 		c.Set("evaluations", len(bs)+ndirs)
 		c.Set("distinct_nontrivial", len(bs))
 		c.Set("probe_names", len(names))
-		c.Set("rule", "behaviours = per-edge output of spec/Track.tla (sequences of <= MaxOps track/untrack operations over all names of <= MaxLen characters from 13 character classes and 4 glob patterns, 6 pre-existing .gitattributes classes: absent, comments and macros with LF or CRLF, last line unterminated, a single unterminated line with or without LFS attributes); every one-step behaviour is replayed, two-step ones stratified by (ops, pre-class, character classes); after each step git check-attr is asked about every name")
+		c.Set("rule", "behaviours = per-edge output of spec/Track.tla (sequences of <= MaxOps track/untrack operations over all names of <= MaxLen characters from 14 character classes and 4 glob patterns, 6 pre-existing .gitattributes classes: absent, comments and macros with LF or CRLF, last line unterminated, a single unterminated line with or without LFS attributes); every one-step behaviour is replayed, two-step ones stratified by (ops, pre-class, character classes); after each step git check-attr is asked about every name")
 		for i := 0; i < len(bs); i += len(bs)/4 + 1 {
 			c.Sample(json.RawMessage(bs[i].raw))
 		}
